@@ -93,6 +93,10 @@ fn gen_tree(rng: &mut Rng, tier: Tier) -> Tree {
     if let Some((k, v)) = expected.iter().next() {
         texts.insert(k.clone(), v.clone());
     }
+    // notes that are in normal form except for their line endings: no newline at the end of the file, CRLF throughout
+    // (the file must still end up holding exactly what the export defines)
+    texts.insert("ends-without-newline".into(), "# Title\n\ntext without a final newline".into());
+    texts.insert("sub dir/crlf note".into(), "# Title\r\n\r\n- one\r\n- two\r\n".into());
     let expected = export_lib(&texts, "");
     let mut files: BTreeMap<String, Vec<u8>> = BTreeMap::new();
     let mut notes = BTreeMap::new();
